@@ -551,6 +551,28 @@ def _do(world, st, op):
         st.trees[tname] = t
         return {'parsed_from': src}
 
+    if name == 'shift_diff':
+        # the first line of one file's diff moved to the end of the diff of
+        # the file before it: the same bytes in all, divided differently
+        t = st.trees.get(tname)
+        ch = resolve(t, [op.get('change', 0)]) if t is not None else None
+        files = list(getattr(ch, 'files', ())) if ch is not None else []
+        i = int(op.get('file', 0))
+
+        if i + 1 >= len(files):
+            return {'outcome': 'skip', 'skipped': 'no-two-files'}
+
+        a, b = files[i].diff, files[i + 1].diff
+
+        if not isinstance(a, bytes) or not isinstance(b, bytes) or \
+           b.count(b'\n') < 2:
+            return {'outcome': 'skip', 'skipped': 'no-two-diffs'}
+
+        k = b.index(b'\n') + 1
+        files[i].diff = a + b[:k]
+        files[i + 1].diff = b[k:]
+        return {'shifted': k}
+
     if name == 'clone_tree':
         # a whole tree copied (copy.deepcopy, copy.copy of every level is
         # not offered by the library; a pickle round trip): an equal tree
